@@ -261,6 +261,17 @@ fn index_order(s: &S) -> Option<IndexOrder> {
 
 pub fn index_create(s: &S) -> IndexCreateStatement {
     let mut ix = Index::create();
+    index_apply(&mut ix, s);
+    ix
+}
+
+/// does the clause list set anything that `IndexCreateStatement::take()` leaves behind in the builder (flags, the
+/// predicate and the INCLUDE list are copied, table / name / columns / index type are moved out)?
+fn index_is_sticky(s: &S) -> bool {
+    s.args().iter().any(|c| matches!(c.head(), "primary" | "unique" | "nnd" | "include" | "ifnotexists" | "andwhere" | "condwhere"))
+}
+
+pub fn index_apply(ix: &mut IndexCreateStatement, s: &S) {
     for c in s.args() {
         let l = c.args();
         match c.head() {
@@ -319,7 +330,6 @@ pub fn index_create(s: &S) -> IndexCreateStatement {
             other => panic!("index clause {}", other),
         }
     }
-    ix
 }
 
 fn fk_action(s: &S) -> ForeignKeyAction {
@@ -443,6 +453,12 @@ fn table_fk(s: &S) -> TableForeignKey {
 
 pub fn table_create(s: &S) -> TableCreateStatement {
     let mut t = Table::create();
+    // `index` / `primary_key` take `&mut IndexCreateStatement` and leave the builder behind for the caller to use
+    // again.  Part of the cases do exactly that: while nothing sticky was set on it, the builder left behind by one
+    // declaration is used for the next (the model builds every index from a new builder, which is the same thing -
+    // unless a call marks the caller's builder, round 10)
+    let reuse = crate::exprs::shash(s) % 2 == 0;
+    let mut left: Option<IndexCreateStatement> = None;
     for c in s.args() {
         let l = c.args();
         match c.head() {
@@ -476,11 +492,20 @@ pub fn table_create(s: &S) -> TableCreateStatement {
             "check" => {
                 t.check(expr(&l[0]));
             }
-            "index" => {
-                t.index(&mut index_create(&l[0]));
-            }
-            "pk" => {
-                t.primary_key(&mut index_create(&l[0]));
+            "index" | "pk" => {
+                let mut ix = match left.take() {
+                    Some(k) if reuse => k,
+                    _ => Index::create(),
+                };
+                index_apply(&mut ix, &l[0]);
+                if c.head() == "pk" {
+                    t.primary_key(&mut ix);
+                } else {
+                    t.index(&mut ix);
+                }
+                if !index_is_sticky(&l[0]) {
+                    left = Some(ix);
+                }
             }
             "fk" => {
                 t.foreign_key(&mut fk_create(&l[0]));
